@@ -479,6 +479,8 @@ class Num(Val):
         self.mid = None         # D8 memory identity: arrays with the same mid share storage
         self.whole = True       # ... and hold the same elements in the same order (same object / zero-copy identity), not a partial view
         self.grid = None        # integer index grid: value at (i, k) = ai*i + ak*k + c, stored as (ai, ak, c); 1-D vectors use ak = 0
+        self.intdt = False      # the value may be held in the INTEGER dtype of integer-typed input data (products can overflow)
+        self.rowview = None     # this vector is the row view M[e] of a named local matrix: (name, index AST, {name: id(value)} of the index operands)
         self.conj_of = None     # uid of the array this one is the complex conjugate of
         self.fill = None        # constant a fresh buffer was filled with (zeros / ones / full), until it is written
         self.idx = False        # an integer index vector (arange and its integer shifts): value = index - org
@@ -496,6 +498,8 @@ class Num(Val):
         c.taint = self.taint | t
         c.uid = self.uid        # the same value, only its dependence set grew
         c.view_of, c.mid, c.whole, c.clob = self.view_of, self.mid, self.whole, self.clob
+        c.rowview, c.rowof, c.grid, c.idx, c.conj_of = self.rowview, self.rowof, self.grid, self.idx, self.conj_of
+        c.intdt = self.intdt
         return c
 
     def copy(self, **kw):
@@ -751,6 +755,9 @@ def num_join(a, b):
     r.mid = a.mid if a.mid == b.mid else None
     r.whole = a.whole and b.whole
     r.clob = a.clob or b.clob
+    if a.rowview is not None and b.rowview is not None and a.rowview[0] == b.rowview[0] and a.rowview[1] is b.rowview[1] \
+            and a.rowview[2] == b.rowview[2]:
+        r.rowview = a.rowview
     if a.amap == 'bad' or b.amap == 'bad':
         r.amap = 'bad'
     elif a.amap or b.amap:
@@ -814,6 +821,7 @@ class SeqV(Val):
         self.elem = elem
         self.n = n
         self.taint = taint
+        self.qarr = None        # D4: charges of the items by position (same forms as an array: lin / partial), when known
 
     def __repr__(self):
         return 'Seq(%r x %s)' % (self.elem, self.n)
@@ -850,8 +858,11 @@ def sz_join(a, b):
                 bd = Aff.BOUNDS.get(s.name)
                 if bd is None or bd[0] is None or s in inst.free_symbols:
                     continue
-                for off in (0, 1):
-                    if sp.cancel(sp.together(gen.subs(s, bd[0].to_sympy() + off) - inst)) == 0:
+                cands = [bd[0].to_sympy(), bd[0].to_sympy() + 1]
+                if bd[1] is not None:
+                    cands += [bd[1].to_sympy() - 1, bd[1].to_sympy() - 2]       # a descending loop starts at the upper end
+                for cv in cands:
+                    if sp.cancel(sp.together(gen.subs(s, cv) - inst)) == 0:
                         return gen
         return None
     except Exception:
